@@ -79,6 +79,9 @@ GChild == CASE GAME = "qs" -> Child7 [] GAME = "rich" -> Child6 [] GAME = "mate7
 GStatic == CASE GAME = "qs" -> Static7 [] GAME = "rich" -> Static6 [] GAME = "mate7" -> Static1 [] GAME = "coll" -> Static2 [] GAME = "twomates" -> Static3 [] GAME = "tiny" -> Static4 [] OTHER -> Static5
 GStatus == CASE GAME = "qs" -> Status7 [] GAME = "rich" -> Status6 [] GAME = "mate7" -> Status1 [] GAME = "coll" -> Status2 [] GAME = "twomates" -> Status3 [] GAME = "tiny" -> Status4 [] OTHER -> Status5
 GCap == IF GAME = "qs" THEN Cap7 ELSE [n \in GNodes |-> <<>>]
+\* table geometry: one slot per key (no displacement), or everything squeezed into two slots
+CONSTANT TinyTable
+GSlot == [k \in { (IF Collide /\ n = "Rc" THEN "R" ELSE n) : n \in GNodes } |-> IF TinyTable THEN (IF k \in {"R", "A", "T1", "M", "X", "Q"} THEN "s1" ELSE "s2") ELSE k]
 GKey == [n \in GNodes |-> IF Collide /\ n = "Rc" THEN "R" ELSE n]
 GMoveIds == UNION { GMoves[n] : n \in GNodes }
 \* move orders: every permutation at the root (the seed's jitter), one fixed order elsewhere
@@ -88,10 +91,10 @@ GOrdersOne == [n \in GNodes |-> IF GMoves[n] = {} THEN {<<>>} ELSE { CHOOSE p \i
 
 \* any table a previous search (of any root, any depth) could have left behind: every entry is legal
 \* for *some* node with that key
-PriorEntries(k) == {NoEntry} \cup { [kind |-> kd, mv |-> m, cur |-> 0, mx |-> d, eval |-> 0] :
+PriorEntries(k) == {NoEntry} \cup { [kind |-> kd, mv |-> m, cur |-> 0, mx |-> d, eval |-> 0, key |-> k] :
                                     m \in UNION { GMoves[n] : n \in { x \in GNodes : GKey[x] = k } }, d \in {1, 3}, kd \in {"E"} }
-InitAny == /\ tt \in [Keys -> UNION { PriorEntries(k) : k \in Keys }]
-           /\ \A k \in Keys : tt[k] \in PriorEntries(k)
+InitAny == /\ tt \in [Slots -> UNION { PriorEntries(k) : k \in Keys }]
+           /\ \A sl \in Slots : tt[sl] \in UNION { PriorEntries(k) : k \in { x \in Keys : SlotOf[x] = sl } }
            /\ iter = 0 /\ stk = [w \in 0..(Workers - 1) |-> <<>>] /\ res = [w \in 0..(Workers - 1) |-> <<"idle">>]
            /\ reports = <<>> /\ phase = "start"
            /\ cancel = FALSE /\ cnt = [w \in 0..(Workers - 1) |-> 0] /\ post = [w \in 0..(Workers - 1) |-> 0] /\ panicked = FALSE
